@@ -25,7 +25,7 @@ int main(int argc, char** argv) {
 		uint8_t dummy[4] = { 0 }; randomx::Blake2Generator gen(dummy, 0);
 		int nprogs = atoi(arg(argc, argv, "--progs", "0")); if (nprogs <= 0) nprogs = 1 + (s % 2);
 		randomx::SuperscalarProgram* p = new randomx::SuperscalarProgram();
-		int dstAfterSrc = 0, aborts = 0, srcThrow = 0, maxConsec = 0, unmapped = 0, full = 0, small = 0, elim = 0, maxStall = 0, rcp = 0;
+		int dstAfterSrc = 0, aborts = 0, srcThrow = 0, maxConsec = 0, unmapped = 0, full = 0, small = 0, elim = 0, maxStall = 0, rcp = 0, late = 0, halfRcp = 0;
 		for (int i = 0; i < nprogs; ++i) {
 			std::ostringstream os; std::streambuf* old = std::cout.rdbuf(os.rdbuf());
 			randomx::generateSuperscalar(*p, gen);
@@ -33,8 +33,10 @@ int main(int argc, char** argv) {
 			if (p->getSize() >= 512) full++;
 			for (unsigned j = 0; j < p->getSize(); ++j) if ((randomx::SuperscalarInstructionType)(*p)(j).opcode == randomx::SuperscalarInstructionType::IMUL_RCP) rcp++;
 			if (p->getSize() < 380) small++;
-			std::istringstream is(os.str()); std::string ln; int srcStall = 0, dstStall = 0, consec = 0;
+			std::istringstream is(os.str()); std::string ln; int srcStall = 0, dstStall = 0, consec = 0; int maxCommit = -1; bool lastMov = false;
 			while (std::getline(is, ln)) {
+				{ size_t q = ln.find("; P"); size_t a = ln.find(" at cycle "); // a committed uop: "<macro-op> ; P5 at cycle N"
+				  if (q != std::string::npos && a == q + 4) { int cy = atoi(ln.c_str() + a + 10); if (cy > maxCommit) maxCommit = cy; lastMov = ln.compare(0, 11, "mov rax,i64") == 0; } }
 				if (ln.find("; src STALL") != std::string::npos) { srcStall++; }
 				else if (ln.find("; dst STALL") != std::string::npos) { dstStall++; }
 				else if (ln.find("; THROW away") != std::string::npos) { if (dstStall && srcStall) dstAfterSrc++; if (!dstStall) srcThrow++; consec++; if (consec > maxConsec) maxConsec = consec; srcStall = dstStall = 0; }
@@ -43,9 +45,11 @@ int main(int argc, char** argv) {
 				else if (ln.find("(eliminated)") != std::string::npos) { elim++; }
 				else if (ln.find("; dst = r") != std::string::npos) { if (srcStall + dstStall > maxStall) maxStall = srcStall + dstStall; srcStall = dstStall = 0; consec = 0; }
 			}
+			if (maxCommit > RANDOMX_SUPERSCALAR_LATENCY) late++;      // a macro-op committed beyond cycle 170 (the port map is four cycles longer than the latency bound)
+			if (lastMov) halfRcp++;                                   // generation ended between the two macro-ops of an IMUL_RCP
 		}
 		delete p;
-		printf("S %llu:%d style=%u dstAfterSrcStall=%d aborts=%d srcThrow=%d maxConsec=%d unmapped=%d full=%d small=%d maxStall=%d rcp=%d\n", (unsigned long long)seed, s, style, dstAfterSrc, aborts, srcThrow, maxConsec, unmapped, full, small, maxStall, rcp);
+		printf("S %llu:%d style=%u dstAfterSrcStall=%d aborts=%d srcThrow=%d maxConsec=%d unmapped=%d full=%d small=%d maxStall=%d rcp=%d late=%d halfRcp=%d\n", (unsigned long long)seed, s, style, dstAfterSrc, aborts, srcThrow, maxConsec, unmapped, full, small, maxStall, rcp, late, halfRcp);
 	}
 	return 0;
 }
